@@ -7,6 +7,7 @@ import EaselModel.Msa.LemmasRbb
 import EaselModel.Msa.LemmasDyck
 import EaselModel.Msa.LemmasFrag
 import EaselModel.Msa.LemmasC2W
+import EaselModel.Msa.LemmasSsCols
 /-! # C15 — alignment transformations keep the alignment well formed and the residues intact; WUSS round trips
 
 Property theorems only; proofs are glue on the lemmas of `EaselModel/Msa/Lemmas*.lean`.
@@ -344,6 +345,30 @@ theorem ct2wuss_nested_labels (n : Nat) (ct : List Nat) (hct : CtOk n ct) (hn : 
 theorem nested_roundtrip (n : Nat) (ct : List Nat) (hct : CtOk n ct) (hn : Nested ct) (ss : Bytes)
     (h : ct2wuss ct = .ok ss) : wuss2ct ss = some ct :=
   nested_roundtrip' n ct hct hn ss h
+
+/-- UNCONDITIONAL nested round trip: on every symmetric non-pseudoknotted pair table `esl_ct2wuss` succeeds (never
+    enters the pseudoknot branch, finds every pair: `npairs == npairs_reached`) and `esl_wuss2ct` of its output is the
+    table again -/
+theorem nested_roundtrip_total (n : Nat) (ct : List Nat) (hct : CtOk n ct) (hn : Nested ct) :
+    ∃ ss, ct2wuss ct = .ok ss ∧ wuss2ct ss = some ct :=
+  nested_roundtrip_total' n ct hct hn
+
+/-- NESTED structures, end to end on strings: `esl_msa_RemoveBrokenBasepairsFromSS` succeeds and the SS line it writes
+    reads back as EXACTLY the original pairs whose two partners are both retained (`removeBroken_keeps_exactly`
+    characterises that table) -/
+theorem removeBroken_nested (ss : Bytes) (useme : List Bool) (ct : List Nat) (h : wuss2ct ss = some ct) (hn : Nested ct) :
+    ∃ ss', removeBrokenFromSS ss useme = .ok ss' ∧ wuss2ct ss' = some (breakPairs useme 1 ss.length ct) :=
+  removeBroken_nested' ss useme ct h hn
+
+/-- "Secondary-structure annotation stays a balanced WUSS string", nested case, through BOTH steps of a DNA/RNA
+    `esl_msa_ColumnSubset`: the base-pair repair succeeds, writes a line of the same length spelling exactly the pairs
+    with both partners retained, every column that is then removed carries an unpaired symbol, and the compacted line
+    is accepted by `esl_wuss2ct` again (that its pairs are the re-indexed retained pairs is checked by the monitors) -/
+theorem repaired_then_compacted_balanced (ss : Bytes) (mask : List Bool) (ct : List Nat) (h : wuss2ct ss = some ct)
+    (hn : Nested ct) (hm : mask.length = ss.length) :
+    ∃ ss', removeBrokenFromSS ss mask = .ok ss' ∧ ss'.length = ss.length ∧
+      wuss2ct ss' = some (breakPairs mask 1 ss.length ct) ∧ ∃ ct2, wuss2ct (maskFilter mask ss') = some ct2 :=
+  repaired_then_compacted_balanced' ss mask ct h hn hm
 
 /-- ... in particular for the table of any bracket-only WUSS string: wuss -> ct -> wuss -> ct returns the same table
     whenever the table of the string is nested (the hypothesis `hn`; with pseudoknot letters the tables need not be
